@@ -40,6 +40,55 @@ def evaluate(sid, pids=None, tier="quick"):
     return out
 
 
+SUITE = ["/venv/bin/python", "-m", "pytest", "-q", "-p", "no:cacheprovider", "--timeout=900", "--deselect", "tests/test_argentina_parameters.py"]
+
+
+def confirm(sid, wt):
+    """independent confirmation in a FRESH worktree at `wt` (same path the change was written in, in case the demo names it):
+    demo passes on the pristine tree, fails with the patch; the repository suite passes with the patch; then the target check."""
+    d = os.path.join(HERE, "seeded", sid)
+    meta_path = os.path.join(d, "meta.json")
+    meta = json.load(open(meta_path))
+    subprocess.run(["git", "-C", "/repo", "worktree", "remove", "--force", wt], capture_output=True)
+    shutil.rmtree(wt, ignore_errors=True)
+    subprocess.run(["git", "-C", "/repo", "worktree", "prune"])
+    subprocess.run(["git", "-C", "/repo", "worktree", "add", "-q", "--detach", wt, "HEAD"], check=True)
+    ran = {}
+    try:
+        os.makedirs(os.path.join(wt, "MUTATION"), exist_ok=True)
+        shutil.copy(os.path.join(d, "demo.py"), os.path.join(wt, "MUTATION", "demo.py"))
+        env = dict(os.environ, PYTHONPATH=wt, MPLBACKEND="Agg")
+        demo = ["/venv/bin/python", "MUTATION/demo.py"]
+        p0 = subprocess.run(demo, cwd=wt, env=env, capture_output=True, text=True)
+        ran["demo_on_pristine_exit"] = p0.returncode
+        subprocess.run(["git", "-C", wt, "apply", os.path.join(d, "patch.diff")], check=True)
+        p1 = subprocess.run(demo, cwd=wt, env=env, capture_output=True, text=True)
+        ran["demo_with_change_exit"] = p1.returncode
+        ran["demo_with_change_tail"] = (p1.stdout + p1.stderr)[-300:]
+        subprocess.run(["git", "-C", wt, "checkout", "--", "results"], capture_output=True)
+        t0 = time.time()
+        ps = subprocess.run(SUITE, cwd=wt, env=dict(os.environ, MPLBACKEND="Agg"), capture_output=True, text=True)
+        ran["suite_with_change"] = (ps.stdout.strip().splitlines() or ["?"])[-1]
+        ran["suite_exit"] = ps.returncode
+        ran["suite_wall_s"] = round(time.time() - t0)
+        subprocess.run(["git", "-C", wt, "checkout", "--", "results"], capture_output=True)
+        subprocess.run(["git", "-C", wt, "clean", "-fdq", "results"], capture_output=True)
+        envc = dict(os.environ, VERIF_REPO=wt, VERIF_EVIDENCE_DIR=os.path.join(wt, "MUTATION", "evidence"))
+        pc = subprocess.run([os.path.join(HERE, "check"), meta["property"], "--tier", "quick"], cwd=HERE, env=envc, capture_output=True, text=True)
+        ran["check_exit"] = pc.returncode
+        ran["check_clauses"] = sorted({l.split("clause=")[1].split(" ")[0] for l in pc.stdout.splitlines() if l.startswith("  clause=")})
+        ran["check_last_line"] = (pc.stdout.strip().splitlines() or ["?"])[-1]
+    finally:
+        subprocess.run(["git", "-C", "/repo", "worktree", "remove", "--force", wt], capture_output=True)
+        shutil.rmtree(wt, ignore_errors=True)
+        subprocess.run(["git", "-C", "/repo", "worktree", "prune"])
+    meta["ran"] = ran
+    meta["confirmed"] = bool(ran.get("demo_on_pristine_exit") == 0 and ran.get("demo_with_change_exit") not in (0, None) and ran.get("suite_exit") == 0)
+    meta.setdefault("detected_by", {})[meta["property"] + ":quick"] = ran.get("check_exit") == 1
+    json.dump(meta, open(meta_path, "w"), indent=1)
+    print(sid, json.dumps(ran)[:600])
+
+
 def table():
     rows = []
     for sid in sorted(os.listdir(os.path.join(HERE, "seeded"))):
@@ -55,5 +104,7 @@ if __name__ == "__main__":
     if sys.argv[1] == "eval":
         res = evaluate(sys.argv[2], sys.argv[3:] or None)
         print(json.dumps(res, indent=1))
+    elif sys.argv[1] == "confirm":
+        confirm(sys.argv[2], sys.argv[3])
     elif sys.argv[1] == "table":
         table()
